@@ -507,6 +507,34 @@ func GenC03(seed uint64) *Plan {
 		p.Faults.Reconfig = true
 	}
 	p.SharedPool = g.chance(20)
+	if g.chance(25) {
+		// head-following mode: a short chain, slow growth and frequent shallow
+		// replacements (often of the head block at the same height), several
+		// integrations on the one client: steps end at the head while the head
+		// cache and the segment caches hold data of the replaced block
+		sp.InitLen = g.between(8, 14)
+		for _, d := range p.Decls {
+			if d.Sources[0].Start > uint64(sp.InitLen-2) {
+				d.Sources[0].Start = uint64(g.between(1, sp.InitLen-2))
+			}
+		}
+		for len(p.Decls) < 2 {
+			d := g.randomDecl(p, len(p.Decls), fmt.Sprintf("t_ig%d", len(p.Decls)), uint64(g.between(1, sp.InitLen-2)), 0, []int{25, 0})
+			g.hashedDecl(d)
+			p.Decls = append(p.Decls, d)
+		}
+		f := &p.Faults
+		f.MaxReorgDepth = g.between(1, 2)
+		f.ReorgPerMille = g.pickInt([]int{20, 40})
+		f.MaxReorgs = g.between(10, 30)
+		f.GrowPerMille = 12
+		f.MaxGrow = 30
+		f.HealAt = g.between(800, 2500)
+		f.HTTPPerMille = min(f.HTTPPerMille, 25)
+		f.PGPerMille = min(f.PGPerMille, 25)
+		sp.Batch = g.between(1, 3)
+		sp.Conc = g.between(1, sp.Batch)
+	}
 	return p
 }
 
